@@ -29,7 +29,15 @@ const baseText = `module a { namespace "urn:a"; prefix a;
  rpc r { input { leaf i { type string; default id; } } }
 }`
 
-var targets = []string{"l", "n", "m", "ll", "li", "c", "c/x", "c/cc/y", "ch", "ad", "u1/gl", "u1/gll", "u1/gli", "r/input/i", "r/input", "nope", "c/nope"}
+// a second module grafts nodes into a: deviations of augmented nodes
+const augText = `module g { namespace "urn:g"; prefix g; import a { prefix a; }
+ augment /a:c { leaf ay { type string; default ad; units au; } leaf-list all { type string; max-elements 4; } }
+ augment /a:u1 { container ac { leaf az { type int8; } } }
+}`
+
+var baseFiles = []dump.File{{Name: "a.yang", Text: baseText}, {Name: "g.yang", Text: augText}}
+
+var targets = []string{"l", "n", "m", "ll", "li", "c", "c/x", "c/cc/y", "ch", "ad", "u1/gl", "u1/gll", "u1/gli", "r/input/i", "r/input", "nope", "c/nope", "c/g:ay", "c/g:all", "u1/g:ac/g:az"}
 
 type prop struct{ K, V string }
 type deviate struct {
@@ -62,10 +70,21 @@ type Input struct {
 	Ignore bool        `json:"ignore_not_supported"`
 }
 
-func path(t string) string { return "/a:" + strings.ReplaceAll(t, "/", "/a:") }
+// path spells a target as an absolute schema path: steps are in module a unless they say g:.
+func path(t string) string {
+	var sb strings.Builder
+	for _, st := range strings.Split(t, "/") {
+		if strings.Contains(st, ":") {
+			sb.WriteString("/" + st)
+		} else {
+			sb.WriteString("/a:" + st)
+		}
+	}
+	return sb.String()
+}
 
 func (in Input) files() []dump.File {
-	fs := []dump.File{{Name: "a.yang", Text: baseText}}
+	fs := append([]dump.File{}, baseFiles...)
 	byMod := map[string][]Deviation{}
 	var mods []string
 	for _, d := range in.Devs {
@@ -76,7 +95,7 @@ func (in Input) files() []dump.File {
 	}
 	for _, m := range mods {
 		var sb strings.Builder
-		fmt.Fprintf(&sb, `module %s { namespace "urn:%s"; prefix %s; import a { prefix a; }`, m, m, m)
+		fmt.Fprintf(&sb, `module %s { namespace "urn:%s"; prefix %s; import a { prefix a; } import g { prefix g; }`, m, m, m)
 		for _, d := range byMod[m] {
 			fmt.Fprintf(&sb, " deviation %s {", path(d.Target))
 			for _, x := range d.Seq {
@@ -351,6 +370,7 @@ func find(ms *yang.Modules, t string) *yang.Entry {
 		if e == nil {
 			return nil
 		}
+		s = s[strings.Index(s, ":")+1:]
 		switch {
 		case e.RPC != nil && s == "input":
 			e = e.RPC.Input
@@ -361,6 +381,15 @@ func find(ms *yang.Modules, t string) *yang.Entry {
 		}
 	}
 	return e
+}
+
+// plain drops the module prefixes from the steps of a target.
+func plain(t string) string {
+	parts := strings.Split(t, "/")
+	for i, s := range parts {
+		parts[i] = s[strings.Index(s, ":")+1:]
+	}
+	return strings.Join(parts, "/")
 }
 
 // goneAbove: t or one of its ancestors was removed by a not-supported applied so far.
@@ -401,7 +430,7 @@ func check(in Input) (f *fail, wantErr bool) {
 func checkOrder(in Input, reverse bool) (f *fail, wantErr bool) {
 	pan, pt := core.Guard(func() {
 		if baseMS == nil {
-			r := dump.Run([]dump.File{{Name: "a.yang", Text: baseText}}, dump.Options{})
+			r := dump.Run(baseFiles, dump.Options{})
 			if len(r.ProcErrs) > 0 {
 				panic("base module has errors: " + dump.Errors(r.ProcErrs))
 			}
@@ -484,8 +513,10 @@ func checkOrder(in Input, reverse bool) (f *fail, wantErr bool) {
 		got := flat(ms)
 		var diffs []string
 		frameSkip := map[string]bool{}
+		goneAt := map[string]bool{}
 		for t, n := range want {
-			p := "/" + t
+			p := "/" + plain(t)
+			goneAt[p] = n.gone
 			e := find(ms, t)
 			if !n.gone && goneAbove(want, t) {
 				// deviated first, then removed together with a node above it
@@ -514,7 +545,7 @@ func checkOrder(in Input, reverse bool) (f *fail, wantErr bool) {
 		for p, line := range baseFlat {
 			skip := false
 			for fp := range frameSkip {
-				if p == fp || (want[strings.TrimPrefix(fp, "/")] != nil && want[strings.TrimPrefix(fp, "/")].gone && strings.HasPrefix(p, fp+"/")) {
+				if p == fp || (goneAt[fp] && strings.HasPrefix(p, fp+"/")) {
 					skip = true
 				}
 			}
@@ -587,13 +618,13 @@ func shards(tier string) []string {
 }
 
 // several deviation statements on a node, its children and its ancestors, in one module and in two
-var relTargets = []string{"c", "c/x", "c/cc", "c/cc/y", "u1", "u1/gl", "u1/gll", "r/input", "r/input/i", "n"}
+var relTargets = []string{"c", "c/x", "c/cc", "c/cc/y", "u1", "u1/gl", "u1/gll", "r/input", "r/input/i", "n", "c/g:ay", "u1/g:ac", "u1/g:ac/g:az"}
 var relDeviates = []deviate{{Kind: "not-supported"}, {"replace", []prop{{"config", "false"}}}, {"add", []prop{{"units", "v"}}}, {"replace", []prop{{"type", "int8"}}}, {"delete", []prop{{"default", "4"}}}}
 
 var tripleTargets = []string{"l", "ll", "u1/gll", "ch", "c/cc/y"}
 
 func run(c *core.Ctx) {
-	c.Res.Bound = fmt.Sprintf("%d targets (leaf with default and units, plain leaf, mandatory leaf, bounded leaf-list, list, config-false container, nested leaves, choice with default, anydata, leaf / leaf-list / list inside one of two uses of a grouping, rpc input leaf, two missing targets) x every single deviate (not-supported, unknown kind, add/replace/delete x 18 single properties and 5 property pairs) and every ordered pair of deviates (thorough: every ordered triple of single-property deviates on 5 targets), plus the ignore-not-supported option; two deviating modules on the same and on different targets; every ordered pair (one module and two) and triple of deviation statements over %d related targets (a node, its children, its ancestors) x %d deviates", len(targets), len(relTargets), len(relDeviates))
+	c.Res.Bound = fmt.Sprintf("%d targets (leaf with default and units, plain leaf, mandatory leaf, bounded leaf-list, list, config-false container, nested leaves, choice with default, anydata, leaf / leaf-list / list inside one of two uses of a grouping, rpc input leaf, two missing targets, a leaf, a leaf-list and a nested leaf grafted by another module's augments) x every single deviate (not-supported, unknown kind, add/replace/delete x 18 single properties and 5 property pairs) and every ordered pair of deviates (thorough: every ordered triple of single-property deviates on 5 targets), plus the ignore-not-supported option; two deviating modules on the same and on different targets; every ordered pair (one module and two) and triple of deviation statements over %d related targets (a node, its children, its ancestors) x %d deviates", len(targets), len(relTargets), len(relDeviates))
 	ds := deviates()
 	n := 0
 	one := func(in Input) {
